@@ -10,7 +10,17 @@
                 passes, and one more pass;
     - [CaseOp]  the real DeployableOperands.Deploy run three times, either on a
                 table-driven synthetic operand (model comparison) or on the
-                real operands of the config controller (monitor only).
+                real operands of the config controller (monitor only);
+    - [CaseW]   a HISTORY on one store holding priority classes, pods, pod
+                groups and a queue forest, driven through the real
+                PodGroupReconciler and the real QueueReconciler: per step some
+                changes (preemptibility flips by spec / priority class with no
+                other change, pods, spec.queue, re-parenting, queues created
+                and deleted), then targeted reconciles of the touched pod
+                group, its queue and all ancestors in various orders, then
+                full passes (every pod group and every queue) until a pass
+                writes nothing; per Reconcile: the object's stored status
+                afterwards and whether a stored object changed.
 
     WHAT "UNCHANGED" MEANS (clause 3, "reconciling again without change leaves
     every object unchanged").  The observable is the STORED OBJECT, not the API
@@ -177,6 +187,174 @@ Definition q_monitor (k : q_case) : bool :=
         else true)
   else true.
 
+(** * Histories on one store (both status controllers) *)
+
+Record w_obs := {
+  wo_ev : wevent;              (* WRecGroup i / WRecQueue n *)
+  wo_found : bool;             (* the object exists *)
+  wo_err : bool;               (* Reconcile returned an error (or panicked) *)
+  wo_status : rstatus;         (* the object's stored status after the Reconcile *)
+  wo_children : list positive; (* queue: status.childQueues afterwards, sorted *)
+  wo_wrote : bool;             (* a stored pod group / queue changed *)
+}.
+
+Record w_step_obs := { ws_changes : list wchange; ws_passes : list (list w_obs) }.
+
+Record w_case := { wk_init : world; wk_steps : list w_step_obs }.
+
+(** ** correspondence: the model threads its own store *)
+
+Definition w_obs_agrees (w : world) (o : w_obs) : bool :=
+  let w' := w_step (wo_ev o) w in
+  match wo_ev o with
+  | WChange _ => false
+  | WRecGroup i =>
+      match nth_error (w_groups w) i, nth_error (w_groups w') i with
+      | Some g, Some g' =>
+          wo_found o && Bool.eqb (w_event_errs anp_rule (wo_ev o) w) (wo_err o)
+          && req (g_status (wg_pg g')) (wo_status o)
+          && Bool.eqb (negb (req (g_status (wg_pg g')) (g_status (wg_pg g)))) (wo_wrote o)
+      | _, _ => negb (wo_found o) && negb (wo_wrote o)
+      end
+  | WRecQueue n =>
+      match find_queue n (w_queues w') with
+      | None => negb (wo_found o) && negb (wo_wrote o)
+      | Some q => wo_found o && negb (wo_err o) && req (q_status q) (wo_status o)
+                  && pos_list_eqb (q_children q) (wo_children o)
+                  && Bool.eqb (w_event_writes (wo_ev o) w) (wo_wrote o)
+      end
+  end.
+
+Fixpoint w_pass_agrees (w : world) (pass : list w_obs) : bool * world :=
+  match pass with
+  | [] => (true, w)
+  | o :: r => let (ok, w') := w_pass_agrees (w_step (wo_ev o) w) r in (w_obs_agrees w o && ok, w')
+  end.
+
+Fixpoint w_passes_agree (w : world) (passes : list (list w_obs)) : bool * world :=
+  match passes with
+  | [] => (true, w)
+  | p :: r => let (ok1, w1) := w_pass_agrees w p in
+              let (ok2, w2) := w_passes_agree w1 r in (ok1 && ok2, w2)
+  end.
+
+Definition apply_changes (chs : list wchange) (w : world) : world :=
+  fold_left (fun w ch => w_apply ch w) chs w.
+
+Fixpoint w_steps_agree (w : world) (steps : list w_step_obs) : bool :=
+  match steps with
+  | [] => true
+  | s :: r => let (ok, w') := w_passes_agree (apply_changes (ws_changes s) w) (ws_passes s) in
+              ok && w_steps_agree w' r
+  end.
+
+(** ** monitor: inputs from the changes, STORED VALUES FROM THE OBSERVATIONS *)
+
+Definition obs_apply (o : w_obs) (w : world) : world :=
+  match wo_ev o with
+  | WChange _ => w
+  | WRecGroup i =>
+      with_groups w (upd_nth i (wg_set_pg (fun g => set_status g (wo_status o))) (w_groups w))
+  | WRecQueue n =>
+      with_queues w (map (fun q => if Pos.eqb (q_name q) n
+                                   then {| q_name := q_name q; q_parent := q_parent q;
+                                           q_status := wo_status o; q_children := wo_children o |}
+                                   else q) (w_queues w))
+  end.
+
+(** EVERY field of a queue's status against the truth recomputed from the pods
+    by phase and the pod groups' CURRENT preemptibility, at every level *)
+Definition queue_truthful (w : world) (q : queue) : bool :=
+  let t := w_truth w (q_name q) in
+  veq (s_alloc (q_status q)) (s_alloc t)
+  && veq (s_anp (q_status q)) (s_anp t)
+  && veq (s_req (q_status q)) (s_req t)
+  && pos_list_eqb (q_children q) (child_names (q_name q) (w_queues w)).
+
+Definition group_truthful (w : world) (g : wgroup) : bool :=
+  req (g_status (wg_pg g)) (wg_truth (w_classes w) g).
+
+Definition queues_truthful (w : world) : bool := forallb (queue_truthful w) (w_queues w).
+Definition world_truthful (w : world) : bool :=
+  queues_truthful w && forallb (group_truthful w) (w_groups w).
+
+(** one Reconcile against the stored state before it: the object afterwards
+    holds what it is locally supposed to (pod group: the truth; queue: Σ own pod
+    groups + Σ children as stored, and the list of its children), and a stored
+    object changed iff it differed from that in ANY field *)
+Definition w_obs_ok (w : world) (o : w_obs) : bool :=
+  match wo_ev o with
+  | WChange _ => false
+  | WRecGroup i =>
+      match nth_error (w_groups w) i with
+      | None => negb (wo_wrote o)
+      | Some g =>
+          if wo_err o then negb (wo_wrote o) && req (wo_status o) (g_status (wg_pg g))
+          else let t := wg_truth (w_classes w) g in
+               req (wo_status o) t && Bool.eqb (wo_wrote o) (negb (req (g_status (wg_pg g)) t))
+      end
+  | WRecQueue n =>
+      match find_queue n (w_queues w) with
+      | None => negb (wo_wrote o)
+      | Some q =>
+          let cl := w_cluster w in
+          let loc := radd (own_pgs_sum cl n) (children_sum cl n) in
+          let kids := child_names n (w_queues w) in
+          let differs := negb (veq (s_alloc (q_status q)) (s_alloc loc))
+                         || negb (veq (s_anp (q_status q)) (s_anp loc))
+                         || negb (veq (s_req (q_status q)) (s_req loc))
+                         || negb (pos_list_eqb (q_children q) kids) in
+          negb (wo_err o) && req (wo_status o) loc && pos_list_eqb (wo_children o) kids
+          && Bool.eqb (wo_wrote o) differs
+      end
+  end.
+
+Fixpoint w_pass_monitor (w : world) (pass : list w_obs) : bool * world :=
+  match pass with
+  | [] => (true, w)
+  | o :: r => let (ok, w') := w_pass_monitor (obs_apply o w) r in (w_obs_ok w o && ok, w')
+  end.
+
+Definition w_pass_is_full (w : world) (pass : list w_obs) : bool :=
+  forallb (fun i => existsb (fun o => match wo_ev o with WRecGroup j => Nat.eqb i j | _ => false end) pass)
+          (seq 0 (List.length (w_groups w)))
+  && forallb (fun q => existsb (fun o => match wo_ev o with WRecQueue n => Pos.eqb n (q_name q) | _ => false end) pass)
+             (w_queues w).
+
+Definition pass_quiet (pass : list w_obs) : bool := forallb (fun o => negb (wo_wrote o) && negb (wo_err o)) pass.
+
+(** a full pass that starts while some queue reports a stale field must write
+    (C20_queue_stale_forces_write) *)
+Fixpoint w_passes_monitor (w : world) (passes : list (list w_obs)) : bool * world :=
+  match passes with
+  | [] => (true, w)
+  | p :: r =>
+      let c_ok := if w_pass_is_full w p && negb (queues_truthful w) then negb (pass_quiet p) else true in
+      let (d_ok, w1) := w_pass_monitor w p in
+      let (rest_ok, w2) := w_passes_monitor w1 r in
+      (c_ok && d_ok && rest_ok, w2)
+  end.
+
+(** per step, in a well-formed forest: every Reconcile is locally right; the
+    step's last pass is a full pass that writes nothing (the driver runs full
+    passes until one is quiet, at most height + 3: C20_queue_passes_le_height),
+    and after it every pod group and every queue reports the truth in every
+    field.  Steps with a failing pod-group Reconcile are outside the theorems'
+    hypotheses: only the per-Reconcile clause applies to them *)
+Definition w_step_monitor (w : world) (s : w_step_obs) : bool * world :=
+  let w0 := apply_changes (ws_changes s) w in
+  let (ok, w1) := w_passes_monitor w0 (ws_passes s) in
+  let errs := existsb (existsb wo_err) (ws_passes s) in
+  let lastp := last (ws_passes s) [] in
+  let settled := w_pass_is_full w0 lastp && pass_quiet lastp && world_truthful w1 in
+  (if wf_forest (w_queues w0) then ok && (errs || settled) else true, w1).
+
+Fixpoint w_steps_monitor (w : world) (steps : list w_step_obs) : bool :=
+  match steps with
+  | [] => true
+  | s :: r => let (ok, w') := w_step_monitor w s in ok && w_steps_monitor w' r
+  end.
+
 (** * Operator Deploy *)
 
 Record op_case := {
@@ -290,13 +468,15 @@ Definition op_monitor (k : op_case) : bool :=
 Inductive case :=
 | CasePG (k : pg_case)
 | CaseQ (k : q_case)
-| CaseOp (k : op_case).
+| CaseOp (k : op_case)
+| CaseW (k : w_case).
 
 Definition model_agrees (k : case) : bool :=
   match k with
   | CasePG p => pg_agrees (pk_init p) (pk_steps p)
   | CaseQ q => q_agrees q
   | CaseOp o => op_agrees o
+  | CaseW k => w_steps_agree (wk_init k) (wk_steps k)
   end.
 
 Definition monitor_ok (k : case) : bool :=
@@ -304,6 +484,7 @@ Definition monitor_ok (k : case) : bool :=
   | CasePG p => forallb pg_step_monitor (pk_steps p)
   | CaseQ q => q_monitor q
   | CaseOp o => op_monitor o
+  | CaseW k => w_steps_monitor (wk_init k) (wk_steps k)
   end.
 
 Definition run_mismatches (cs : list (nat * case)) : list nat := failing (fun k => negb (model_agrees k)) cs.
